@@ -236,7 +236,7 @@ func main() {
 	}
 	run := common.NewRun("C12")
 	run.Res.Rule = "cases = complete Go programs whose only statement of main prints a marker (package variable initialiser, init and main each print): " +
-		"(a) operator × reflect-kind table probes; (b) one check site per program over the fragment's type universe × every context (binary, comparison, shift, unary, receive, declaration, assignment, conversion, send, index, op-assignment, argument, return, condition, arity), full product in the thorough tier, seeded sample in the quick tier; " +
+		"(a) operator × reflect-kind table probes; (b) one check site per program over the fragment's type universe × every context (binary, comparison, shift, unary, receive, declaration, assignment, conversion, send, index, op-assignment, argument, return, condition, arity), full product in the thorough tier (operator-expression sources: 40 % of the type pairs), seeded sample in the quick tier; " +
 		"(c) seeded type-directed well-typed programs of the fragment × every applicable single-point mutation of the catalogue at every site; (d) hand-written seed programs × text-level mutations for the checks outside the fragment (composite literals, builtins, fields, methods, interfaces, declarations); (e) pipeline cases (entry points, imported source package). " +
 		"Every program is type-checked by go/types (original must pass, mutant must fail), compiled and evaluated by the interpreter under recover, and (a,b,c) sent to the Lean model and specification. non-trivial = an ill-typed program (mutant or probe the reference rejects) or a generated original; distinct = distinct source text"
 	defer run.Finish()
@@ -316,7 +316,7 @@ func main() {
 	// (c) generated programs × mutation catalogue
 	nprog, perProg := 12, 450
 	if run.Thorough() {
-		nprog, perProg = 120, 900
+		nprog, perProg = 100, 600
 	}
 	if v := os.Getenv("VERIF_C12_NPROG"); v != "" {
 		fmt.Sscan(v, &nprog)
